@@ -266,7 +266,7 @@ def _arity(text: str) -> int:
     return max(ks) + 1 if ks else 0
 
 
-def _request_table(fs_rows, handlers: Dict[str, str], folder_rows, verbs) -> List[List[str]]:
+def _request_table(fs_rows, handlers: Dict[str, str], folder_rows, verbs, file_action: str = "") -> List[List[str]]:
     """The full request table below `file_system`: sub-managers expanded, `<F>` / `<x>` / `<force>` where a handler indexes
     `request[0..2]`, the dynamic folder / file levels followed into Folder's and File's own tables. Strict."""
     subs: Dict[str, list] = {}
@@ -295,9 +295,9 @@ def _request_table(fs_rows, handlers: Dict[str, str], folder_rows, verbs) -> Lis
                     out += [[name, "<F>", sub, "<x>", v] for v in item]
                 else:
                     out.append(leaf([name, "<F>", sub], f, ["<x>"]))
-        elif func in handlers and "file._request_manager(request[2:], context)" in handlers[func]:
-            if "folder_name=request[0], file_name=request[1]" not in handlers[func]:
-                raise ValueError(f"{func}: unrecognised file route handler")
+        elif func == file_action:
+            # the closure that dispatches into a file's own manager, read structurally by fsxlate.file_action_shape (Gen/FileSystemMethods:
+            # hFileActionTarget / hFileActionConsumed, theorem C15_gen_file_action)
             out += [[name, "<F>", "<x>", v] for v in item]
         else:
             out.append(leaf([name], func, names))
@@ -334,12 +334,21 @@ def emit() -> str:
     L.append("def fsHandlers : List (String × String) := [")
     from harness.extract.fsxlate import HANDLERS as _XH, VALIDATORS as _XV
     xh = {h[0] for h in _XH}                          # translated (fsxlate, C15_gen_handlers): no textual pin
+    from harness.extract import fsxlate as _fx2
+    try:
+        look, consumed = _fx2.file_action_shape(irm)
+        if look != "fsGetFile s r0 r1 false" or consumed != 2:
+            raise _fx2.Unsupported("_file_action reads other options than request[0], request[1] / hands on other than request[2:]")
+        xh.add(_fx2.FILE_ACTION)                       # lookup translated, dispatch read structurally (C15_gen_file_action)
+        file_action = _fx2.FILE_ACTION
+    except _fx2.Unsupported:
+        file_action = ""                               # stays in fsHandlers (text) and the request table reports the leaf as it is
     L.append(",\n".join(f"  ({lean_str(n.name)}, {lean_str(cleaned(n))})" for n in irm.body if isinstance(n, ast.FunctionDef) and n.name not in xh))
     L.append("]")
 
     # the full request table
     handlers = {n.name: cleaned(n) for n in irm.body if isinstance(n, ast.FunctionDef)}
-    table = _request_table(_add_requests(irm), handlers, _add_requests(find_method(fo_c, "_init_request_manager")), verbs)
+    table = _request_table(_add_requests(irm), handlers, _add_requests(find_method(fo_c, "_init_request_manager")), verbs, file_action)
     L.append("/-- every request shape below `file_system` (sub-managers expanded; `<F>`, `<x>`, `<force>` = what a handler indexes) -/")
     L.append("def requestTable : List (List String) := [")
     L.append(",\n".join("  [" + ", ".join(lean_str(t) for t in row) + "]" for row in table))
@@ -396,6 +405,18 @@ def emit() -> str:
     inv = []
     for c in (fs_c, fo_c, fi_c, it_c):
         inv += [f"{c.name}.{n.name}" for n in c.body if isinstance(n, (ast.FunctionDef, ast.AsyncFunctionDef))]
+    # private helpers of Folder that the statement translator expands IN PLACE at every one of their call sites (extract/fsxlate.py,
+    # `self._helper(X)`): their bodies are read as part of the translated callers, so they are not separate entries of the inventory
+    from harness.extract import fsxlate as _fx
+    helpers = _fx.inlined_helpers()
+    for h, n_inlined in sorted(helpers.items()):
+        n_calls = sum(1 for c in (fs_c, fo_c, fi_c, it_c) for n in ast.walk(c)
+                      if isinstance(n, ast.Attribute) and n.attr == h)
+        if n_calls != n_inlined:
+            raise ValueError(f"helper Folder.{h} is referenced {n_calls} time(s) in the four classes but translated in place {n_inlined} time(s)")
+    inv = [m for m in inv if not (m.startswith("Folder.") and m[len("Folder."):] in helpers)]
+    L.append("/-- private Folder helpers expanded in place by the statement translator (all their call sites are inside translated methods) -/")
+    L.append("def inlinedHelpers : List String := [" + ", ".join(lean_str("Folder." + h) for h in sorted(helpers)) + "]")
     L.append("/-- every method and property of FileSystem, Folder, File, FileSystemItemABC, in source order -/")
     L.append("def methodInventory : List String := [" + ", ".join(lean_str(m) for m in inv) + "]")
     tied = [f"{cn}.{m}" for (cn, rel), ms in TRANSCRIBED.items() for m in ms]          # textual snapshot
